@@ -1327,8 +1327,66 @@ pub fn multiply() -> impl Function {
 }
 
 /// The division (the domain is partitionned)
+/// A division whose divisor range contains 0 has an unbounded quotient:
+/// the bounds cannot be computed from the corners of the range (x / 0 panics or is NaN).
+#[derive(Debug)]
+struct ZeroDivisorGuard<F: Function>(F);
+
+impl<F: Function> fmt::Display for ZeroDivisorGuard<F> {
+    fn fmt(&self, f: &mut fmt::Formatter<'_>) -> fmt::Result {
+        write!(f, "{}", self.0)
+    }
+}
+
+impl<F: Function> ZeroDivisorGuard<F> {
+    fn may_be_zero(data_type: &DataType) -> bool {
+        match data_type {
+            DataType::Integer(i) => i.contains(&0),
+            DataType::Float(f) => f.contains(&0.),
+            DataType::Optional(o) => Self::may_be_zero(o.data_type()),
+            _ => false,
+        }
+    }
+}
+
+impl<F: Function> Function for ZeroDivisorGuard<F> {
+    fn domain(&self) -> DataType {
+        self.0.domain()
+    }
+
+    fn super_image(&self, set: &DataType) -> Result<DataType> {
+        if let DataType::Struct(fields) = set {
+            if let [(_, dividend), (_, divisor)] = fields.fields() {
+                if Self::may_be_zero(divisor) {
+                    return Ok(match (dividend.as_ref(), divisor.as_ref()) {
+                        (DataType::Integer(_), DataType::Integer(_)) => DataType::integer(),
+                        _ => DataType::float(),
+                    });
+                }
+            }
+        }
+        self.0.super_image(set)
+    }
+
+    fn value(&self, arg: &Value) -> Result<Value> {
+        if let Value::Struct(fields) = arg {
+            if let [_, (_, divisor)] = fields.fields() {
+                let zero = match divisor.as_ref() {
+                    Value::Integer(i) => **i == 0,
+                    Value::Float(f) => **f == 0.,
+                    _ => false,
+                };
+                if zero {
+                    return Err(Error::argument_out_of_range(arg, self.domain()));
+                }
+            }
+        }
+        self.0.value(arg)
+    }
+}
+
 pub fn divide() -> impl Function {
-    Polymorphic::from((
+    ZeroDivisorGuard(Polymorphic::from((
         // Integer implementation
         PartitionnedMonotonic::piecewise_bivariate(
             [
@@ -1373,7 +1431,7 @@ pub fn divide() -> impl Function {
             ],
             |x, y| (x / y).clamp(<f64 as Bound>::min(), <f64 as Bound>::max()),
         ),
-    ))
+    )))
 }
 
 /// The modulo
